@@ -73,6 +73,19 @@ def check_pairs(acc: Acc, name: str, grid: list[float], exact_grid: bool, lattic
                     f"{name}.compute on a 2-D array returned shape {np.shape(M)}")
         return
     M1 = impl.compute(A.ravel(), B.ravel()).reshape(A.shape)  # 1-D array entry point
+    # the same array OBJECT as both operands, float32 operands, a list, an ndarray subclass: same function, same values
+    gg = g.copy()
+    diag = np.asarray(impl.compute(gg, gg), dtype=float)
+    others = {"same-object": diag, "float32": np.asarray(impl.compute(g.astype(np.float32), g.astype(np.float32)), dtype=float),
+              "list": np.asarray(impl.compute(list(grid), list(grid)), dtype=float),
+              "matrix": np.asarray(impl.compute(np.matrix(g), np.matrix(g)), dtype=float).ravel()}
+    for kind, vals in others.items():
+        ref_diag = np.array([float(impl.compute(float(np.float32(x)) if kind == "float32" else x,
+                                                float(np.float32(x)) if kind == "float32" else x)) for x in grid])
+        if vals.shape != ref_diag.shape or not np.allclose(vals, ref_diag, rtol=0, atol=1e-15, equal_nan=True):
+            k = int(np.argmax(~np.isclose(vals, ref_diag, rtol=0, atol=1e-15))) if vals.shape == ref_diag.shape else 0
+            acc.violate("operand-kind", {"norm": name, "operands": kind}, {"norm": name, "a": grid[k], "b": grid[k]}, float(ref_diag[k]),
+                        vals.tolist()[:5], f"{name}: {kind} operands give different values than the scalar calls (first at {grid[k]})")
     n = len(grid)
     # order/range relations: no slack on the dyadic grid (every operation is exact or correctly rounded from an exact
     # value, so rounding is monotone); 1e-12 on the non-dyadic lattice where e.g. (a+1)-1 != a is plain rounding
